@@ -63,14 +63,21 @@ def equivariant(chk, clause, repo, key, config, pairs=(), quads=(), extra=None, 
     for p in rets:
         k = frozenset((nf.vkey(c), pol) for c, pol, _ in p.conds)
         by_cond[k] = p
+    partner = {id(p): by_cond.get(frozenset((nf.vkey(nf.subst_value(c, m)), pol) for c, pol, _ in p.conds)) for p in rets}
+    if any(q is None for q in partner.values()):
+        # the case split itself is not symmetric (e.g. a row test that returns before the column test): compare the
+        # function with its row/column-exchanged self on every ordering of the integers the conditions compare
+        from .. import order
+        swapped = [order.P([(nf.subst_value(c, m), pol, n) for c, pol, n in p.conds], nf.subst_value(p.ret, m)) for p in rets]
+        plain = [order.P(p.conds, swap_result(p.ret)) for p in rets]
+        boolean = all(order._is_order_term(p.ret) for p in rets)
+        verdict, why = order.compare_paths(swapped, plain, None if boolean else (lambda x, y: x == y))
+        chk.ob(clause, 'N-equivariance', key, 'axis swap [all orderings of the compared bounds]', verdict,
+               ('exchanging rows and columns of the arguments changes the result for ' + str(why)) if verdict is False else
+               (f'not decided: {why}' if verdict is None else f'{len(rets)} paths agree with their exchanged selves'), f.loc())
+        return
     for p in rets:
-        k2 = frozenset((nf.vkey(nf.subst_value(c, m)), pol) for c, pol, _ in p.conds)
-        q = by_cond.get(k2)
-        if q is None:
-            chk.ob(clause, 'N-equivariance', key, f'axis swap [{conds_str(p)}]', False,
-                   'no path with the row/column-exchanged conditions exists: rows and columns are treated differently',
-                   f.loc(p.node))
-            continue
+        q = partner[id(p)]
         lhs = nf.subst_value(p.ret, m)
         rhs = swap_result(q.ret)
         chk.ob(clause, 'N-equivariance', key, f'axis swap [{conds_str(p)}]', lhs == rhs,
@@ -145,11 +152,21 @@ def extent_identities(chk, repo, clause):
                len(conds) == 1 and conds[0] == wantc,
                f'non-empty path guarded by not {[fmt(c) for c in conds]}; expected not {fmt(wantc)}', f.loc())
     # intersect
-    f, p = one_path(repo, 'extent.intersect', {'a': a, 'b': b})
+    f, paths, _ = analyse(repo, 'extent.intersect', config={'a': a, 'b': b}, inline=extent_inline(repo))
+    rets = returns(paths)
     wantb = nf.app('and', nf.app('le', a.items[0], b.items[1]), nf.app('le', b.items[0], a.items[1]),
                    nf.app('le', a.items[2], b.items[3]), nf.app('le', b.items[2], a.items[3]))
-    chk.ob(clause, 'N-identity', 'extent.intersect', 'overlap predicate', p.ret == wantb,
-           f'returns {fmt(p.ret)}; expected {fmt(wantb)}', f.loc(p.node))
+    if len(rets) == 1 and rets[0].ret == wantb:
+        chk.ob(clause, 'N-identity', 'extent.intersect', 'overlap predicate', True, f'returns {fmt(wantb)}', f.loc(rets[0].node))
+    else:
+        # written some other way (early returns, strict comparisons of shifted bounds, De Morgan): a predicate of
+        # comparisons is decided by its value on every ordering of the compared integers
+        from .. import order
+        verdict, why = order.compare(rets, wantb)
+        chk.ob(clause, 'N-identity', 'extent.intersect', 'overlap predicate', verdict,
+               (f'differs from {fmt(wantb)} for {why}' if verdict is False else
+                f'not decided: {why}' if verdict is None else f'{len(rets)} paths, equal to {fmt(wantb)} on every ordering'),
+               f.loc())
 
 
 def extent_equivariance(chk, repo, clause):
@@ -171,7 +188,8 @@ def extent_equivariance(chk, repo, clause):
         f, paths, _ = analyse(repo, f'propagate.{fn}')
         calls = [c for p in paths for c in p.calls('util.boundary')]
         if not calls:
-            raise AnalysisError(f'propagate.{fn} does not use lentil.boundary')
+            chk.undecided(clause, 'N-equivariance', f'propagate.{fn}', 'axis swap', 'not computed from lentil.boundary', f.loc())
+            continue
         bq = Tup([nf.index(calls[0].result, C(i)) for i in range(4)])
         xs = Tup([nf.index(nf.attr(S('x'), 'shape'), C(0)), nf.index(nf.attr(S('x'), 'shape'), C(1))], 'vec')
         equivariant(chk, clause, repo, f'propagate.{fn}', None, pairs=[xs], quads=[bq])
@@ -182,12 +200,20 @@ def mask_window_identities(chk, repo, clause):
     f, p = one_path(repo, 'propagate._mask_shape')
     calls = p.calls('util.boundary')
     if not calls:
-        raise AnalysisError('_mask_shape does not use lentil.boundary')
-    bq = [nf.index(calls[0].result, C(i)) for i in range(4)]
-    chk.ob(clause, 'N-identity', 'propagate._mask_shape', 'bounding-box lengths',
-           p.ret == Tup([bq[1] - bq[0] + 1, bq[3] - bq[2] + 1]), f'returns {fmt(p.ret)}', f.loc(p.node))
+        # the window has to reach from the first to the last masked row / column: anything that is not derived from the
+        # bounding box (e.g. a count of occupied rows) is too small for masks with gaps
+        chk.ob(clause, 'N-identity', 'propagate._mask_shape', 'bounding-box lengths', False,
+               f'returns {fmt(p.ret)[:160]}, which is not computed from the bounding box of the mask', f.loc(p.node))
+    else:
+        bq = [nf.index(calls[0].result, C(i)) for i in range(4)]
+        chk.ob(clause, 'N-identity', 'propagate._mask_shape', 'bounding-box lengths',
+               p.ret == Tup([bq[1] - bq[0] + 1, bq[3] - bq[2] + 1]), f'returns {fmt(p.ret)}', f.loc(p.node))
     f, p = one_path(repo, 'propagate._mask_shift')
     calls = p.calls('util.boundary')
+    if not calls:
+        chk.ob(clause, 'N-identity', 'propagate._mask_shift', 'centre of the bounding box relative to floor(n/2)', False,
+               f'returns {fmt(p.ret)[:160]}, which is not computed from the bounding box of the mask', f.loc(p.node))
+        return
     bq = [nf.index(calls[0].result, C(i)) for i in range(4)]
     xs = nf.attr(S('x'), 'shape')
     want = Tup([bq[0] + HALF(bq[1] - bq[0] + 1) - HALF(nf.index(xs, C(0))),
